@@ -33,6 +33,7 @@ def loop_plan(prop):
             if prop in ("C08", "C09"):
                 ctx.mc_replay("nest5", "MC_Loop.tla", "MC_Loop_hist.cfg", "fam_nest.json", props, variants=1, consts={"MaxLen": 5})
                 ctx.mc_replay("nestw7", "MC_Loop.tla", "MC_Loop_hist.cfg", "fam_nestw.json", props, variants=1, consts={"MaxLen": 7})
+                ctx.mc_replay("nestf9", "MC_Loop.tla", "MC_Loop_hist.cfg", "fam_nestf.json", props, variants=1, consts={"MaxLen": 9})
             ctx.mc_replay("nestx6", "MC_Loop.tla", "MC_Loop_hist.cfg", "fam_nestx.json", props, variants=1, consts={"MaxLen": 6})
             ctx.mc_replay("nesty6", "MC_Loop.tla", "MC_Loop_hist.cfg", "fam_nesty.json", props, variants=1, consts={"MaxLen": 6})
             extend_sweeps(ctx, prop)
@@ -46,6 +47,7 @@ def loop_plan(prop):
             if prop in ("C08", "C09"):
                 ctx.mc_replay("nest7", "MC_Loop.tla", "MC_Loop_hist.cfg", "fam_nest.json", props, variants=1, consts={"MaxLen": 7}, timeout=3000)
                 ctx.mc_replay("nestw8", "MC_Loop.tla", "MC_Loop_hist.cfg", "fam_nestw.json", props, variants=1, consts={"MaxLen": 8}, timeout=3000)
+                ctx.mc_replay("nestf11", "MC_Loop.tla", "MC_Loop_hist.cfg", "fam_nestf.json", props, variants=1, consts={"MaxLen": 11}, timeout=3000)
             ctx.mc_replay("nestx7", "MC_Loop.tla", "MC_Loop_hist.cfg", "fam_nestx.json", props, variants=1, consts={"MaxLen": 7}, timeout=3000)
             ctx.mc_replay("nesty8", "MC_Loop.tla", "MC_Loop_hist.cfg", "fam_nesty.json", props, variants=1, consts={"MaxLen": 8}, timeout=3000)
             extend_sweeps(ctx, prop)
@@ -76,6 +78,9 @@ def attr_plan(prop, fams):
         for fam, q, t in fams:
             ctx.mc_replay(fam, "MC_Attrs.tla", "MC_Attrs.cfg", "fam_%s.json" % fam, props, variants=2 if tier == "quick" else 4,
                           consts={"MaxAttrs": q if tier == "quick" else t}, replaycmd="replayattrs", timeout=3000)
+        import os
+        for fam, _, _ in fams:   # build - use - extend - use over the attribute alphabets (harness-driven; the oracle judges)
+            ctx.vh("extend-" + fam, ["extendsweep", "-fam", os.path.join(ctx.dir, "fam_%s.json" % fam), "-props", prop], timeout=1800)
         if tier == "quick":
             ctx.trace("sessions", props, sessions=60, calls=25, kinds="0,1,3,4,6,6,6", check_attrs=True)
         else:
@@ -105,6 +110,9 @@ def conf_plan(prop, fams, kinds):
             # the property names UGCPolicy and StrictPolicy explicitly: the shipped-policy family (vocabulary and hostile tokens)
             ctx.mc_replay("ugc-hist", "MC_Loop.tla", "MC_Loop_hist.cfg", "fam_ugc.json", props, variants=1,
                           consts={"MaxLen": 2 if q else 3}, timeout=3000)
+        import os
+        for fam in (["fam_conf.json", "fam_allow.json"] if prop == "C07" else ["fam_conf.json"]):
+            ctx.vh("extend-" + fam[4:-5], ["extendsweep", "-fam", os.path.join(ctx.dir, fam), "-props", prop], timeout=1200)
         ctx.trace("sessions", props, sessions=80 if q else 800, calls=25 if q else 40, kinds=kinds, check_attrs=True, timeout=3000)
         return dict(rule=("TLC checks I07/I20 (BM_Props) on every history of fam_conf up to MaxLen and I07attrs/AnyOf/I20attrs on every "
                           "attribute list of the attribute families; every case is replayed (canonical serialisation for C07) and the "
@@ -139,14 +147,14 @@ PLANS["C04"] = c04_plan
 
 def c17_plan(ctx, tier):
     q = tier == "quick"
-    # measured: the full 41-call alphabet at three calls is > 1.5 M states of 7 KB each; three calls run over a reduced alphabet
+    # measured: the full 42-call alphabet at three calls is > 1.5 M states of 7 KB each; three calls run over a reduced alphabet
     ctx.mc_replay("policy", "MC_Policy.tla", "MC_Policy.cfg", "fam_policy.json", ["C17"], replaycmd="replaypolicy",
                   consts={"MaxLen": 2, "AlgDepth": 1 if q else 2}, timeout=3400)
     if not q:
         ctx.mc_replay("policy3", "MC_Policy.tla", "MC_Policy.cfg", "fam_policy3.json", ["C17"], replaycmd="replaypolicy",
                       consts={"MaxLen": 3, "AlgDepth": 1}, timeout=3400)
     ctx.trace("policyfuzz", ["C17"], cmd=["policyfuzz", "-n", "150" if q else "3000"], timeout=3000)
-    return dict(rule=("TLC explores every history of <= 2 builder calls (41-call alphabet incl. case variants, toggles, helpers; thorough: also <= 3 calls over a 16-call alphabet) on two policy "
+    return dict(rule=("TLC explores every history of <= 2 builder calls (42-call alphabet incl. case variants, toggles, helpers; thorough: also <= 3 calls over a 17-call alphabet) on two policy "
                       "instances from 4 constructor pairs and checks Commute, Idempotent, CaseBlind, SwitchLastWrite, RulesAccumulate, Independent; "
                       "each history is replayed on the real API: snapshot of each instance = predicted policy, the untouched instance's snapshot "
                       "never changes, an instance built next to another behaves like the same calls made alone, and all histories reaching the "
